@@ -23,7 +23,7 @@
    No well-formedness condition on the configuration is needed for C08. *)
 From Coq Require Import List ZArith NArith Bool.
 From PC.Base Require Import Assoc.
-From PC.Sup Require Import Model Monitors Sim RelCore Agreement RelC08 RelC08b SpecC08 ExC08.
+From PC.Sup Require Import Model Monitors Sim RelCore Agreement RelC08 RelC08b RelC08c SpecC08 ExC08.
 Import ListNotations.
 
 (* Every history of the model that did not go through the dup or the zombie window satisfies the
@@ -80,6 +80,22 @@ Theorem C08_one_live : forall cs ord evs s,
   forall j, j <> i -> get j (lv_inst (lv_of pre)) <> Some (ni, true).
 Proof. exact C08_one_live_combined_lemma. Qed.
 Print Assumptions C08_one_live.
+
+(* Restart clause, second half ("launched only after the previous one has exited"), in a stronger form:
+   whenever an instance of process n is CREATED (trace point NewProcess(i, n) of runProcess - in the
+   hardened model only a thread inside Run's spawn loop, StartProcess(n) after its check, or
+   RestartProcess(n) after the stop and the wait can emit it), no instance of n has a command alive.
+   The new instance's launch comes later on its own goroutine, so it is launched only after every
+   previous instance of the process has exited.  Same hypotheses as C08_combined.
+   (The first half, "exactly one new instance per successful call", is a per-thread protocol fact that
+   mon_C08 does not encode; see notes/C08.md for what a proof needs.) *)
+Theorem C08_restart_after_exit : forall cs ord evs s,
+  accept (init cs ord) evs = Some s -> w_dup (final_obs cs evs) = false ->
+  w_zombie (final_obs cs evs) = false \/ no_stop_pending evs = true ->
+  forall pre th i n post, evs = pre ++ (th, ENewInst i n) :: post ->
+  forall j, get j (lv_inst (lv_of pre)) <> Some (n, true).
+Proof. exact C08_created_after_exit_lemma. Qed.
+Print Assumptions C08_restart_after_exit.
 
 (* the monitor implies the declarative statement for ANY history (no model involved) *)
 Theorem C08_monitor_meaning : forall cs evs, holds_C08 cs evs = true -> one_live evs.
